@@ -67,6 +67,40 @@ ENTRY(c16_absent_id_extended) {
   __verif_assert(r.isError(), "absent zone id restores to the error zone");
 }
 
+// restore histories on ONE manager: hit (zone a0), absent id, the same absent id again, hit (zone a1), a second absent id,
+// hit (zone a0) - every answer must be what a fresh manager gives (ids symbolic, assumed different from every entry)
+template <typename MGR, typename BROKER, typename INFO>
+static void restoreHistory(MGR& mgr, const INFO* const* registry, uint16_t n, long z0, long z1) {
+  uint32_t id = __verif_nondet_u32("id"), idB = __verif_nondet_u32("idB");
+  for (uint16_t i = 0; i < n; i++) {
+    uint32_t zid = BROKER(registry[i]).zoneId();
+    __verif_assume(id != zid && idB != zid);
+  }
+  uint32_t id0 = BROKER(registry[z0]).zoneId(), id1 = BROKER(registry[z1]).zoneId();
+  TimeZone h0 = mgr.createForTimeZoneData(TimeZoneData(id0));
+  __verif_assert(!h0.isError() && h0 == mgr.createForZoneIndex((uint16_t) z0) && h0.getZoneId() == id0, "history: first hit");
+  __verif_assert(mgr.createForTimeZoneData(TimeZoneData(id)).isError(), "history: absent id after a hit -> error zone");
+  __verif_assert(mgr.createForTimeZoneData(TimeZoneData(id)).isError(), "history: the same absent id again -> error zone");
+  __verif_assert(mgr.createForZoneId(id).isError(), "history: createForZoneId(absent) -> error zone");
+  __verif_assert(mgr.indexForZoneId(id) == ZoneManager::kInvalidIndex, "history: indexForZoneId(absent) -> invalid index");
+  TimeZone h1 = mgr.createForTimeZoneData(TimeZoneData(id1));
+  __verif_assert(!h1.isError() && h1 == mgr.createForZoneIndex((uint16_t) z1) && h1.getZoneId() == id1, "history: hit after misses");
+  __verif_assert(mgr.createForTimeZoneData(TimeZoneData(idB)).isError(), "history: second absent id -> error zone");
+  __verif_assert(mgr.createForTimeZoneData(TimeZoneData(id)).isError(), "history: first absent id once more -> error zone");
+  TimeZone h2 = mgr.createForZoneId(id0);
+  __verif_assert(!h2.isError() && h2 == h0 && h2.getZoneId() == id0, "history: first zone again");
+  __verif_assert(mgr.createForTimeZoneData(TimeZoneData()).isError(), "history: error data -> error zone");
+  __verif_assert(mgr.createForZoneId(id0) == h0, "history: hit after error data");
+}
+ENTRY(c16_history_basic) {
+  BasicZoneManager<1> mgr(zonedb::kZoneRegistrySize, zonedb::kZoneRegistry);
+  restoreHistory<BasicZoneManager<1>, basic::ZoneInfoBroker, basic::ZoneInfo>(mgr, zonedb::kZoneRegistry, zonedb::kZoneRegistrySize, a0, a1);
+}
+ENTRY(c16_history_extended) {
+  ExtendedZoneManager<1> mgr(zonedbx::kZoneRegistrySize, zonedbx::kZoneRegistry);
+  restoreHistory<ExtendedZoneManager<1>, extended::ZoneInfoBroker, extended::ZoneInfo>(mgr, zonedbx::kZoneRegistry, zonedbx::kZoneRegistrySize, a0, a1);
+}
+
 // registry zone a0 of the basic database, other zone a1, probe instant a2
 ENTRY(c16_managed_basic) {
   BasicZoneManager<2> mgr(zonedb::kZoneRegistrySize, zonedb::kZoneRegistry);
